@@ -11,6 +11,11 @@ import (
 
 // ReadOpts controls how a snapshot is read for comparison.
 type ReadOpts struct {
+	// RelaxKeyless (store-side comparisons only, while the open finding F14e
+	// still reproduces): when the reference holds no key at any level, only
+	// require that the store holds no key either - child collections that are
+	// empty all the way down are not persisted into a store without segments.
+	RelaxKeyless bool
 	NoCopy    bool
 	SkipGets  bool
 	Probes    [][]byte // keys to Get (present or absent)
@@ -33,12 +38,35 @@ func CompareSnapshot(snap moss.Snapshot, want *Node, ro ReadOpts, path string) (
 	return compareSnapshot(snap, want, ro, path)
 }
 
+func nodeKeyless(n *Node) bool {
+	if len(n.KV) > 0 {
+		return false
+	}
+	for _, c := range n.Children {
+		if !nodeKeyless(c) {
+			return false
+		}
+	}
+	return true
+}
+
 func compareSnapshot(snap moss.Snapshot, want *Node, ro ReadOpts, path string) string {
 	if snap == nil {
 		return path + ": snapshot is nil"
 	}
 	if want == nil {
 		return path + ": model has no such collection"
+	}
+	if ro.RelaxKeyless && nodeKeyless(want) {
+		got, err := readTree(snap)
+		if err != nil {
+			return fmt.Sprintf("%s: %v", path, err)
+		}
+		if !nodeKeyless(got) {
+			return fmt.Sprintf("%s: the reference holds no key at all, the store does: %s", path, got.String())
+		}
+		relaxedKeyless++
+		return ""
 	}
 	// full iteration
 	it, err := snap.StartIterator(nil, nil, moss.IteratorOptions{})
@@ -260,8 +288,18 @@ func readTree(snap moss.Snapshot) (*Node, error) {
 // ---------------------------------------------------------------
 // Env-level checks
 
+var relaxedKeyless int // comparisons answered by the RelaxKeyless rule (reported in the evidence)
+
 func (e *Env) readOpts() ReadOpts {
 	return ReadOpts{Probes: e.universe, ChildPool: childPool}
+}
+
+// storeReadOpts: options for comparisons of what the store / a reopened
+// directory holds.
+func (e *Env) storeReadOpts() ReadOpts {
+	ro := e.readOpts()
+	ro.RelaxKeyless = excluded("struct-only-into-empty-store")
+	return ro
 }
 
 // CheckColl: a fresh snapshot of the collection must equal the model.
@@ -293,9 +331,9 @@ func (e *Env) CheckStore(when string) {
 		if snap == nil {
 			e.Failf("%s: Store.Snapshot returned nil", when)
 		}
-		d := CompareSnapshot(snap, e.ExpectedStore(), e.readOpts(), "store")
+		d := CompareSnapshot(snap, e.ExpectedStore(), e.storeReadOpts(), "store")
 		if d != "" && e.pState == pHeld && len(e.base) > 0 {
-			if d2 := CompareSnapshot(snap, e.States[e.base[len(e.base)-1]], e.readOpts(), "store"); d2 == "" {
+			if d2 := CompareSnapshot(snap, e.States[e.base[len(e.base)-1]], e.storeReadOpts(), "store"); d2 == "" {
 				d = ""
 			}
 		}
